@@ -1,4 +1,5 @@
 import Driver.Util
+import Driver.Ext4Tree
 import DiskfsModel.Model.Ext4.Bitmap
 import DiskfsModel.Model.Ext4.FileIO
 import DiskfsModel.Model.Ext4.DirPack
@@ -283,4 +284,4 @@ def main : IO Unit := Driver.runLoop fun op args =>
   | "ext4acc.remove" => Driver.Ext4Ops.accRemove args
   | "ext4acc.dealloc" => Driver.Ext4Ops.accDealloc args
   | "ext4links.step" => Driver.Ext4Ops.linksStep args
-  | _ => "unknown-op"
+  | _ => (Driver.Ext4Tree.dispatch op args).getD "unknown-op"
